@@ -221,6 +221,11 @@ func runC14(c *fw.Ctx) {
 				mdl[p] = v
 			}
 			if i%8 == 7 || i == nops-1 {
+				// reads whose returned bytes the harness overwrites (lab.CheckMap) must leave every stored node intact
+				if f := lab.CheckMap(m, mdl, nil); f != "" {
+					c.Violate("", "%s: %s; history: %s", st.name, f, strings.Join(c.Trace(), "; "))
+					return
+				}
 				if !sw.store(st.name, st.db, disk) {
 					c.Violate("", "history: %s", strings.Join(c.Trace(), "; "))
 					return
